@@ -48,6 +48,13 @@ func genBinRecs(r *vk.RNG, steps int, mode string) []Rec {
 			if r.Chance(1, 4) {
 				l["b"] = vk.Pick(r, []string{"p", "q"})
 			}
+			if mode == "twins" {
+				// different label sets that read the same when names and values are joined without
+				// separators: a=xb,b=y and a=x,b=by are both "axbby"
+				l["a"] = vk.Pick(r, []string{"x", "xb"})
+				l["b"] = vk.Pick(r, []string{"y", "by"})
+				a = l["a"]
+			}
 			// at most one sample per visible series per side and window
 			kl, kr := "l|"+a+"|"+l["b"], "r|"+a+"|"+l["b"]
 			if (side != "r" && used[kl]) || (side != "l" && used[kr]) {
@@ -146,7 +153,7 @@ func runC12(r *vk.Run) {
 	for _, op := range c12SetOps {
 		combos = append(combos, combo{op, "vv", false})
 	}
-	modes := []string{"overlap", "overlap", "disjoint", "empty-right", "empty-left"}
+	modes := []string{"overlap", "overlap", "disjoint", "empty-right", "empty-left", "twins"}
 
 	r.Phase("pointwise", r.N(200, 30000), func(c *vk.Case) {
 		rng := c.Rng
